@@ -185,6 +185,10 @@ class DeleteStoriesContract(MergeContract):
         ident = lambda j: self.ident(cx, j)
         uniq = unique_story_ids(V0)
         out = self.std_normal(cx, ex)
+        lp = ex.loop(0)
+        if lp is None or getattr(lp, 'broke', False):
+            out.append(('C06.every_named_story_is_processed', z3.BoolVal(False)))
+            return out
         j = z3.Int('j!e')
         out.append(('C01.every_named_story_is_gone',
                     Imp(uniq, z3.ForAll([j], Imp(A(0 <= j, j < n, ident(j) != none_s),
@@ -224,8 +228,15 @@ class SkippingStoryInsertLoop(StoryInsertLoop):
     def idx0(self, cx, lp):
         return lp.entry.locals[self.index_var].t
 
-    def g_dw(self, cx):
-        return cx.data.setdefault('g_dw', cx.W.fresh_fun('dupwit', L.I, Node))
+    def ghost_vars(self, cx):
+        d = super().ghost_vars(cx)
+        d['dw'] = z3.ArraySort(L.I, Node)       # witness story for a skipped duplicate
+        return d
+
+    def ghost_init(self, cx, lp):
+        d = super().ghost_init(cx, lp)
+        d['dw'] = z3.K(L.I, null)
+        return d
 
     def cid(self, cx, lp, j):
         return text(cx.H.find(self.carried(cx, lp, j), cx.W.lit('storyID')))
@@ -233,16 +244,17 @@ class SkippingStoryInsertLoop(StoryInsertLoop):
     def extra_invariant(self, cx, lp):
         V0 = self.owner.V0(cx)
         k = lp.k
-        dw = self.g_dw(cx)
+        g = lp.st.ghost
+        dw = lambda j: z3.Select(g['dw'], j)
         j = z3.Int('j!dw')
         cur = lp.st.locals[self.index_var]
-        out = [('index_var', cur.t == self.idx0(cx, lp) + self.ins(cx, k))]
+        out = [('index_var', cur.t == self.idx0(cx, lp) + self.ins(g, k))]
         out.append(('ghost.skipped_iff_duplicate',
                     z3.ForAll([j], Imp(A(0 <= j, j < k),
-                                       A(Imp(self.skipped(cx, j), A(V0.is_story(dw(j)), V0.sid(dw(j)) == self.cid(cx, lp, j))),
-                                         Imp(z3.Not(self.skipped(cx, j)),
+                                       A(Imp(self.skipped(g, j), A(V0.is_story(dw(j)), V0.sid(dw(j)) == self.cid(cx, lp, j))),
+                                         Imp(z3.Not(self.skipped(g, j)),
                                              forall_nodes(1, lambda s: Imp(V0.is_story(s), V0.sid(s) != self.cid(cx, lp, j)))))),
-                              patterns=[self.g_skipped(cx)(j)])))
+                              patterns=[self.skipped(g, j)])))
         return out
 
     def ghost_update(self, cx, lp):
@@ -250,13 +262,15 @@ class SkippingStoryInsertLoop(StoryInsertLoop):
         c0 = lp.entry.clock
         inserted = any(w[0] == 'kids' for w in lp.st.writes[len(lp.head.writes):])
         V0 = self.owner.V0(cx)
-        ins, sk, jof, dw = self.g_ins(cx), self.g_skipped(cx), self.g_jof(cx), self.g_dw(cx)
+        g = lp.st.ghost
+        insk = z3.Select(g['ins'], k)
         if inserted:
-            return [sk(k) == False, ins(k + 1) == ins(k) + 1, jof(c0 + ins(k) + 1) == k]
-        s = z3.Const('s!dw', Node)
+            return {'skipped': z3.Store(g['skipped'], k, False), 'ins': z3.Store(g['ins'], k + 1, insk + 1),
+                    'jof': z3.Store(g['jof'], c0 + insk + 1, k)}
         body = lambda x: A(V0.is_story(x), V0.sid(x) == self.cid(cx, lp, k))
-        return [sk(k) == True, ins(k + 1) == ins(k),
-                ('skolem', 'duplicate_exists', z3.Exists([s], body(s)), body(dw(k)))]
+        w = cx.E.witness(lp.st, 'duplicate_exists', Node, body)
+        return {'skipped': z3.Store(g['skipped'], k, True), 'ins': z3.Store(g['ins'], k + 1, insk),
+                'dw': z3.Store(g['dw'], k, w)}
 
     def iteration(self, cx, lp):
         V0 = self.owner.V0(cx)
@@ -297,7 +311,8 @@ class InsertStoriesContract(CarriedStories, MergeContract):
         if lp is None or getattr(lp, 'broke', False):
             out.append(('C06.every_carried_story_is_processed', z3.BoolVal(False)))
             return out
-        ins, sk = (lambda j: L0.ins(cx, j)), (lambda j: L0.skipped(cx, j))
+        g = lp.st.ghost
+        ins, sk = (lambda j: L0.ins(g, j)), (lambda j: L0.skipped(g, j))
         newn = lambda j: cp(c0 + ins(j) + 1, self.carried(cx, j))
         cid = lambda j: text(H0.find(self.carried(cx, j), cx.W.lit('storyID')))
         tid = self.target_id(cx)
@@ -348,3 +363,402 @@ class StoryInsertMerge(InsertStoriesContract):
 
     def shape(self, cx):
         return self.carried_shape(cx) + [('Shape.target_storyID_tag_present', cx.H.find(self.mb(cx), cx.W.lit('storyID')) != null)]
+
+
+# ------------------------------------------------------------------ roElementAction DELETE (stories)
+@contract('mosromgr.mostypes.EAStoryDelete.merge')
+class EAStoryDeleteMerge(DeleteStoriesContract):
+    props = ('C01', 'C03', 'C05', 'C06', 'C12', 'C13', 'C14')
+    cls_name = 'EAStoryDelete'
+    base_tag_name = 'roElementAction'
+
+    def src(self, cx):
+        return cx.H.find(self.mb(cx), cx.W.lit('element_source'))
+
+    def shape(self, cx):
+        return [('Shape.element_source_present', self.src(cx) != null)]
+
+    def n_ids(self, cx):
+        return cx.H.falen(self.src(cx), cx.W.lit('storyID'))
+
+    def ident(self, cx, j):
+        return text(cx.H.fanode(self.src(cx), cx.W.lit('storyID'), j))
+
+    def loop(self, ordinal):
+        if ordinal == 0:
+            return StoryDeleteLoop(self)
+
+
+# ------------------------------------------------------------------ roStoryReplace / EA REPLACE (stories)
+class ReplaceLoop(StoryInsertLoop):
+    def idx0(self, cx, lp):
+        return lp.entry.locals['story_index'].t
+
+
+class ReplaceStoriesContract(CarriedStories, MergeContract):
+    frame = 'base'
+
+    def loop(self, ordinal):
+        if ordinal == 0:
+            return ReplaceLoop(self)
+
+    def ensures(self, cx, ex):
+        V0, H0, H1 = self.V0(cx), cx.H, ex.H
+        P = V0.base
+        n = self.n_carried(cx)
+        c0 = cx.clock
+        out = self.std_normal(cx, ex)
+        lp = ex.loop(0)
+        if lp is None or getattr(lp, 'broke', False):
+            out.append(('C06.every_carried_story_is_processed', z3.BoolVal(False)))
+            return out
+        newn = lambda j: cp(c0 + j + 1, self.carried(cx, j))
+        cid = lambda j: text(H0.find(self.carried(cx, j), cx.W.lit('storyID')))
+        tid = self.target_id(cx)
+        uniq = unique_story_ids(V0)
+        j, j2 = z3.Ints('j!e j2!e')
+        named = lambda z: A(V0.is_story(z), tid != none_s, V0.sid(z) == tid)
+        out.append(('C01+C03.everything_else_keeps_its_order', keep_order(H0, H1, P, named)))
+        out.append(('C01+C04.replacements_occupy_the_replaced_position_in_message_order',
+                    forall_nodes(1, lambda t: Imp(A(uniq, resolves(V0, tid, t)),
+                                                  A(z3.Not(H1.mem(P, t)),
+                                                    z3.ForAll([j], Imp(A(0 <= j, j < n),
+                                                                       A(H1.mem(P, newn(j)), H1.tag(newn(j)) == cx.W.lit('story'),
+                                                                         text(H1.find(newn(j), cx.W.lit('storyID'))) == cid(j),
+                                                                         forall_nodes(1, lambda z: Imp(A(H0.mem(P, z), z != t),
+                                                                                                       (H1.pos(P, z) < H1.pos(P, newn(j))) == (H0.pos(P, z) < H0.pos(P, t)))),
+                                                                         z3.ForAll([j2], Imp(A(0 <= j2, j2 < j), H1.pos(P, newn(j2)) < H1.pos(P, newn(j))))))))))))
+        out.append(('C01.no_other_story_added',
+                    forall_nodes(1, lambda z: Imp(H1.mem(P, z), z3.Or(H0.mem(P, z), A(c0 < born(z), born(z) <= c0 + n, z == newn(born(z) - c0 - 1)))))))
+        out.append(('C03.unresolvable_target_is_inert', Imp(none_resolves(V0, tid), list_same(H0, H1, P))))
+        out.append(('C06.no_warning_when_applied', z3.BoolVal([w for w in ex.st.warns if not w.startswith('*')] == [])))
+        return out
+
+    def raises(self, cx, ex):
+        V0 = self.V0(cx)
+        out = self.std_raise(cx, ex)
+        out.append(('C01.no_error_when_references_resolve',
+                    z3.Not(A(z3.Not(none_resolves(V0, self.target_id(cx))), self.n_carried(cx) >= 1))))
+        return out
+
+
+@contract('mosromgr.mostypes.StoryReplace.merge')
+class StoryReplaceMerge(ReplaceStoriesContract):
+    props = ('C01', 'C03', 'C04', 'C05', 'C06', 'C12', 'C13', 'C14')
+    cls_name = 'StoryReplace'
+    base_tag_name = 'roStoryReplace'
+
+    def target_id(self, cx):
+        return text(cx.H.find(self.mb(cx), cx.W.lit('storyID')))
+
+    def shape(self, cx):
+        return self.carried_shape(cx) + [('Shape.target_storyID_tag_present', cx.H.find(self.mb(cx), cx.W.lit('storyID')) != null)]
+
+
+class EATarget:
+    """roElementAction: target ids live in <element_target>, carried elements in <element_source>"""
+    source_parent_tag = 'element_source'
+
+    def tgt(self, cx):
+        return cx.H.find(self.mb(cx), cx.W.lit('element_target'))
+
+    def target_id(self, cx):
+        return text(cx.H.find(self.tgt(cx), cx.W.lit('storyID')))
+
+
+@contract('mosromgr.mostypes.EAStoryReplace.merge')
+class EAStoryReplaceMerge(EATarget, ReplaceStoriesContract):
+    props = ('C01', 'C03', 'C04', 'C05', 'C06', 'C12', 'C13', 'C14')
+    cls_name = 'EAStoryReplace'
+    base_tag_name = 'roElementAction'
+
+    def shape(self, cx):
+        H, lit = cx.H, cx.W.lit
+        return self.carried_shape(cx) + [
+            ('Shape.element_target_with_storyID', A(self.tgt(cx) != null, H.find(self.tgt(cx), lit('storyID')) != null)),
+            ('Shape.element_source_present', self.carried_parent(cx) != null),
+            ('Shape.at_least_one_replacement_story', self.n_carried(cx) >= 1)]
+
+
+@contract('mosromgr.mostypes.EAStoryInsert.merge')
+class EAStoryInsertMerge(EATarget, InsertStoriesContract):
+    props = ('C01', 'C03', 'C04', 'C05', 'C06', 'C12', 'C13', 'C14')
+    cls_name = 'EAStoryInsert'
+    base_tag_name = 'roElementAction'
+    blank_target_means_end = True
+
+    def target_id(self, cx):
+        # absent element_target / absent storyID tag / blank storyID all mean "no target": id None
+        H, lit = cx.H, cx.W.lit
+        return z3.If(z3.Or(self.tgt(cx) == null, H.find(self.tgt(cx), lit('storyID')) == null), none_s,
+                     text(H.find(self.tgt(cx), lit('storyID'))))
+
+    def shape(self, cx):
+        return self.carried_shape(cx) + [('Shape.element_source_present', self.carried_parent(cx) != null),
+                                         ('Shape.element_target_present', self.tgt(cx) != null)]
+
+
+# ------------------------------------------------------------------ roElementAction SWAP (stories)
+@contract('mosromgr.mostypes.EAStorySwap.merge')
+class EAStorySwapMerge(MergeContract):
+    props = ('C01', 'C03', 'C05', 'C06', 'C12', 'C13', 'C14')
+    cls_name = 'EAStorySwap'
+    base_tag_name = 'roElementAction'
+    frame = 'base'
+
+    def src(self, cx):
+        return cx.H.find(self.mb(cx), cx.W.lit('element_source'))
+
+    def ident(self, cx, j):
+        return text(cx.H.fanode(self.src(cx), cx.W.lit('storyID'), j))
+
+    def shape(self, cx):
+        return [('Shape.element_source_with_exactly_two_storyIDs',
+                 A(self.src(cx) != null, cx.H.falen(self.src(cx), cx.W.lit('storyID')) == 2))]
+
+    def ensures(self, cx, ex):
+        V0, H0, H1 = self.V0(cx), cx.H, ex.H
+        P = V0.base
+        ida, idb = self.ident(cx, 0), self.ident(cx, 1)
+        uniq = unique_story_ids(V0)
+        out = self.std_normal(cx, ex)
+        out.append(('C01.swap_never_adds_or_loses_a_story', members_same(H0, H1, P)))
+        out.append(('C01.swapped_stories_exchange_positions',
+                    forall_nodes(2, lambda a, b: Imp(A(uniq, resolves(V0, ida, a), resolves(V0, idb, b), a != b),
+                                                     A(H1.pos(P, a) == H0.pos(P, b), H1.pos(P, b) == H0.pos(P, a))))))
+        out.append(('C01+C03.everything_else_stays_where_it_was',
+                    forall_nodes(1, lambda z: Imp(A(H0.mem(P, z), z3.Not(A(V0.is_story(z), z3.Or(V0.sid(z) == ida, V0.sid(z) == idb)))),
+                                                  A(H1.mem(P, z), H1.pos(P, z) == H0.pos(P, z))))))
+        out.append(('C03.unresolvable_operand_is_inert',
+                    Imp(z3.Or(none_resolves(V0, ida), none_resolves(V0, idb)), list_same(H0, H1, P))))
+        out.append(('C06.no_warning_when_applied', z3.BoolVal(ex.st.warns == [])))
+        return out
+
+    def raises(self, cx, ex):
+        V0 = self.V0(cx)
+        ida, idb = self.ident(cx, 0), self.ident(cx, 1)
+        out = self.std_raise(cx, ex)
+        out.append(('C01.no_error_when_references_resolve',
+                    z3.Not(A(z3.Not(none_resolves(V0, ida)), z3.Not(none_resolves(V0, idb)), ida != idb))))
+        return out
+
+
+# ------------------------------------------------------------------ roStorySend
+def story_send_shape(W, H, mb):
+    """schema shape of <roStorySend>: storyID and storyBody present; the children of storyBody are
+    paragraphs / storyItems (each storyItem with an itemID), no envelope tags among them"""
+    lit = W.lit
+    sb = H.find(mb, lit('storyBody'))
+    return [
+        ('Shape.storyID_tag_present', H.find(mb, lit('storyID')) != null),
+        ('Shape.storyBody_present', sb != null),
+        ('Shape.storyItems_have_itemID',
+         forall_nodes(1, lambda i: Imp(A(H.mem(sb, i), H.tag(i) == lit('storyItem')), H.find(i, lit('itemID')) != null),
+                      patterns=lambda i: [H.mem(sb, i)])),
+        ('Shape.storyBody_children_are_body_elements',
+         forall_nodes(1, lambda i: Imp(H.mem(sb, i), A(H.tag(i) != lit('storyID'), H.tag(i) != lit('mosExternalMetadata'),
+                                                        H.tag(i) != lit('item'), H.tag(i) != lit('storyBody'))),
+                      patterns=lambda i: [H.mem(sb, i)])),
+        ('Shape.no_item_outside_storyBody',
+         forall_nodes(1, lambda i: Imp(H.mem(mb, i), H.tag(i) != lit('item')), patterns=lambda i: [H.mem(mb, i)])),
+        ('Shape.durations_numeric', timing_ok(W, H, mb)),
+    ]
+
+
+@contract('mosromgr.mostypes.StorySend._convert_story_send_to_story_tag')
+class ConvertStorySend(Contract):
+    """caller-facing contract; the body proof (two loops, C04) is in merge_convert.py"""
+    props = ('C04',)
+    opaque = True
+
+    def requires(self, cx):
+        o = cx.node('ss_tag_orig')
+        return [('arg_is_message_element', A(o != null, is_msg(o)))] + story_send_shape(cx.W, cx.H, o)
+
+    def cases(self, cx):
+        o = cx.node('ss_tag_orig')
+        H, W, lit = cx.H, cx.W, cx.W.lit
+        c0 = cx.clock
+        e = c0 + 1
+        r = cp(e, o)
+        H2 = L.Heap(L.nv(), L.nv())
+        q, z = z3.Consts('q!cv z!cv', Node)
+        t = z3.Const('t!cv', Str)
+        kk = z3.Int('k!cv')
+        pre = lambda n: born(n) <= c0
+        facts = [
+            # nothing that existed before is touched
+            z3.ForAll([q, z], Imp(pre(q), A(H2.mem(q, z) == H.mem(q, z), H2.pos(q, z) == H.pos(q, z))), patterns=[H2.mem(q, z), H2.pos(q, z)]),
+            z3.ForAll([q], Imp(pre(q), A(H2.len(q) == H.len(q), H2.tag(q) == H.tag(q))), patterns=[H2.len(q), H2.tag(q)]),
+            z3.ForAll([q, kk], Imp(pre(q), H2.at(q, kk) == H.at(q, kk)), patterns=[H2.at(q, kk)]),
+            z3.ForAll([q, t], Imp(pre(q), A(H2.find(q, t) == H.find(q, t), H2.falen(q, t) == H.falen(q, t))), patterns=[H2.find(q, t), H2.falen(q, t)]),
+            z3.ForAll([q, t, kk], Imp(pre(q), H2.fanode(q, t, kk) == H.fanode(q, t, kk)), patterns=[H2.fanode(q, t, kk)]),
+            z3.ForAll([q, t, z], Imp(pre(q), H2.faidx(q, t, z) == H.faidx(q, t, z)), patterns=[H2.faidx(q, t, z)]),
+            z3.ForAll([q, z], Imp(H2.mem(q, z), is_msg(q) == is_msg(z)), patterns=[H2.mem(q, z)]),
+            # the result: a fresh <story> that is not linked anywhere
+            H2.tag(r) == lit('story'),
+            z3.ForAll([q], z3.Not(H2.mem(q, r)), patterns=[H2.mem(q, r)]),
+            H2.find(r, lit('storyID')) == cp(e, H.find(o, lit('storyID'))),
+            H2.find(r, lit('storyID')) != null,
+            timing_ok(W, H2, r),
+            z3.ForAll([z], Imp(A(H2.mem(r, z), H2.tag(z) == lit('item')), H2.find(z, lit('itemID')) != null), patterns=[H2.mem(r, z)]),
+        ]
+
+        def effect(st):
+            st.clock = e
+            st.heap = H2
+            st.versions.append((H2, e))
+            st.writes.append(('alloc', r, H, None))
+
+        return [Case('converted', ret=SNode(r), assume=facts, effect=effect)]
+
+
+@contract('mosromgr.mostypes.StorySend.merge')
+class StorySendMerge(MergeContract):
+    props = ('C01', 'C03', 'C04', 'C05', 'C06', 'C12', 'C13', 'C14')
+    cls_name = 'StorySend'
+    base_tag_name = 'roStorySend'
+    frame = 'base'
+
+    def shape(self, cx):
+        return story_send_shape(cx.W, cx.H, self.mb(cx))
+
+    def ensures(self, cx, ex):
+        V0, H0, H1 = self.V0(cx), cx.H, ex.H
+        P = V0.base
+        mb = self.mb(cx)
+        sid = text(H0.find(mb, cx.W.lit('storyID')))
+        uniq = unique_story_ids(V0)
+        out = self.std_normal(cx, ex)
+        warned = ex.st.warns
+        r = cp(cx.clock + 2, mb)      # the story accessor converts on every access; the second conversion is inserted
+        if warned == []:
+            out.append(('C01+C04.resent_story_takes_the_position_of_the_story_it_replaces',
+                        forall_nodes(1, lambda t: Imp(A(uniq, resolves(V0, sid, t)),
+                                                      A(z3.Not(H1.mem(P, t)), H1.mem(P, r), H1.pos(P, r) == H0.pos(P, t),
+                                                        H1.tag(r) == cx.W.lit('story'),
+                                                        text(H1.find(r, cx.W.lit('storyID'))) == sid)))))
+            out.append(('C01+C03.everything_else_stays_where_it_was',
+                        forall_nodes(1, lambda z: A(Imp(A(H0.mem(P, z), z3.Not(A(V0.is_story(z), V0.sid(z) == sid))),
+                                                        A(H1.mem(P, z), H1.pos(P, z) == H0.pos(P, z))),
+                                                    Imp(H1.mem(P, z), z3.Or(H0.mem(P, z), z == r))))))
+            out.append(('C06.no_warning_only_when_the_story_was_found', z3.Not(none_resolves(V0, sid))))
+        elif warned == ['StoryNotFoundWarning']:
+            out.append(('C06.one_StoryNotFoundWarning_only_when_unresolvable', none_resolves(V0, sid)))
+            out.append(('C03.unresolvable_story_is_inert', list_same(H0, H1, P)))
+        else:
+            out.append(('C06.at_most_one_warning', z3.BoolVal(False)))
+        return out
+
+
+# ------------------------------------------------------------------ roElementAction MOVE (stories)
+from .loops import MoveLoops, CollectSources, RemoveAll, InsertBlock
+
+
+class MoveContract(MoveLoops, MergeContract):
+    """shared by EAStoryMove, EAItemMove, ItemMoveMultiple (parent/tag differ)"""
+
+    def loop(self, ordinal):
+        if ordinal == 0:
+            return CollectSources(self)
+        if ordinal == 1:
+            return RemoveAll(self)
+        if ordinal == 2:
+            return InsertBlock(self, self.index_var)
+
+    def move_clauses(self, cx, ex, P, is_elem0, eid0, prop='C01'):
+        """view-level postcondition of a block move inside parent P (entry-heap term)"""
+        H0, H1 = cx.H, ex.H
+        out = []
+        la, lc = ex.loop(0), ex.loop(2)
+        if la is None or lc is None or getattr(la, 'broke', False) or getattr(lc, 'broke', False):
+            return [('C06.every_named_source_is_processed', z3.BoolVal(False))]
+        Lst = lc.entry.locals[self.list_var]
+        n = self.move_n(cx)
+        el = lambda i: Lst.elem(i).t
+        moved = lambda z: self.in_list(lc.st.ghost, Lst, n, z)
+        tid = self.move_target_id(cx)
+        j, j2 = z3.Ints('j!e j2!e')
+        uniq = forall_nodes(2, lambda s, t: Imp(A(is_elem0(s), is_elem0(t), eid0(s) == eid0(t)), s == t),
+                            patterns=lambda s, t: [z3.MultiPattern(H0.mem(P, s), H0.mem(P, t))])
+        out.append(('%s.move_never_adds_or_loses_an_element' % prop, members_same(H0, H1, P)))
+        out.append(('C06+%s.every_named_source_is_moved' % prop,
+                    z3.ForAll([j], Imp(A(0 <= j, j < n),
+                                       A(is_elem0(el(j)), self.move_ident(cx, j) != none_s, eid0(el(j)) == self.move_ident(cx, j), moved(el(j)))))))
+        out.append(('%s+C03.unmoved_children_keep_their_order' % prop,
+                    forall_nodes(2, lambda z, w: Imp(A(H0.mem(P, z), H0.mem(P, w), z3.Not(moved(z)), z3.Not(moved(w))),
+                                                     (H1.pos(P, z) < H1.pos(P, w)) == (H0.pos(P, z) < H0.pos(P, w))))))
+        out.append(('C03.only_named_elements_are_moved',
+                    forall_nodes(1, lambda z: Imp(moved(z), A(is_elem0(z), z3.Exists([j], A(0 <= j, j < n, self.move_ident(cx, j) != none_s,
+                                                                                            eid0(z) == self.move_ident(cx, j))))))))
+        out.append(('%s.block_in_message_order' % prop,
+                    z3.ForAll([j, j2], Imp(A(0 <= j, j < j2, j2 < n), H1.pos(P, el(j)) < H1.pos(P, el(j2))))))
+        out.append(('%s.block_immediately_before_target' % prop,
+                    forall_nodes(1, lambda t: Imp(A(uniq, tid != none_s, is_elem0(t), eid0(t) == tid),
+                                                  z3.ForAll([j], Imp(A(0 <= j, j < n),
+                                                                     forall_nodes(1, lambda z: Imp(A(H0.mem(P, z), z3.Not(moved(z))),
+                                                                                                   (H1.pos(P, z) < H1.pos(P, el(j))) == (H0.pos(P, z) < H0.pos(P, t))))))))))
+        out.append(('%s.block_at_end_when_target_blank_or_absent' % prop,
+                    Imp(tid == none_s,
+                        z3.ForAll([j], Imp(A(0 <= j, j < n),
+                                           forall_nodes(1, lambda z: Imp(A(H0.mem(P, z), z3.Not(moved(z))), H1.pos(P, z) < H1.pos(P, el(j)))))))))
+        out.append(('C06.no_warning_when_applied', z3.BoolVal([w for w in ex.st.warns if not w.startswith('*')] == [])))
+        return out
+
+
+@contract('mosromgr.mostypes.EAStoryMove.merge')
+class EAStoryMoveMerge(MoveContract):
+    props = ('C01', 'C03', 'C05', 'C06', 'C12', 'C13', 'C14')
+    cls_name = 'EAStoryMove'
+    base_tag_name = 'roElementAction'
+    frame = 'base'
+    list_var = 'source_stories'
+    index_var = 'target_story_index'
+    move_tag, move_idtag = 'story', 'storyID'
+
+    def src(self, cx):
+        return cx.H.find(self.mb(cx), cx.W.lit('element_source'))
+
+    def tgt(self, cx):
+        return cx.H.find(self.mb(cx), cx.W.lit('element_target'))
+
+    def shape(self, cx):
+        return [('Shape.element_source_present', self.src(cx) != null)]
+
+    def move_parent(self, cx, lp):
+        return self.V0(cx).base
+
+    def move_n(self, cx):
+        return cx.H.falen(self.src(cx), cx.W.lit('storyID'))
+
+    def move_ident(self, cx, j):
+        return text(cx.H.fanode(self.src(cx), cx.W.lit('storyID'), j))
+
+    def move_target_id(self, cx):
+        H, lit = cx.H, cx.W.lit
+        return z3.If(z3.Or(self.tgt(cx) == null, H.find(self.tgt(cx), lit('storyID')) == null), none_s,
+                     text(H.find(self.tgt(cx), lit('storyID'))))
+
+    def move_target_node(self, cx, lp):
+        v = lp.entry.locals['target_story']
+        return null if isinstance(v, SNone) else v.t
+
+    def ensures(self, cx, ex):
+        V0 = self.V0(cx)
+        out = self.std_normal(cx, ex)
+        out += self.move_clauses(cx, ex, V0.base, V0.is_story, V0.sid, 'C01')
+        return out
+
+    def raises(self, cx, ex):
+        V0 = self.V0(cx)
+        H0 = cx.H
+        out = self.std_raise(cx, ex)
+        n = self.move_n(cx)
+        j, j2 = z3.Ints('j!r j2!r')
+        tid = self.move_target_id(cx)
+        allres = z3.ForAll([j], Imp(A(0 <= j, j < n), z3.Not(none_resolves(V0, self.move_ident(cx, j)))))
+        distinct = z3.ForAll([j, j2], Imp(A(0 <= j, j < j2, j2 < n), self.move_ident(cx, j) != self.move_ident(cx, j2)))
+        notgt = z3.ForAll([j], Imp(A(0 <= j, j < n), self.move_ident(cx, j) != tid))
+        out.append(('C01.no_error_when_references_resolve',
+                    z3.Not(A(unique_story_ids(V0), allres, distinct, notgt, z3.Or(tid == none_s, z3.Not(none_resolves(V0, tid)))))))
+        return out
